@@ -20,11 +20,6 @@ K_NOACTION = ("a query that consists of a file name only ('x.json': no action at
 K_STORECACHE_MIME = ("StoreCache.store overwrites metadata['mimetype'] with the media type of its own serialisation format (cache.py StoreCache.store: "
                      "metadata['mimetype'] = mime): for 'hello/f.ps' the returned metadata says application/postscript, the cache's copy text/plain")
 
-K_LINKFAIL_KEPT = ("when a link argument fails (evaluate raises EvaluationException) the kept copies - cache.get_metadata(query) and the store metadata under "
-                   "store_key - stay in a progress status ('evaluation'/'dependencies', is_error False) for ever: the sub-query branch of Context.evaluate "
-                   "(context.py:1014-1016) leaves enable_store_metadata False after every sub-evaluation, so the error logged by evaluate_parameter "
-                   "(store_metadata(force=True)) is never written ('num-~X~fail~E', 'one/add-~X~/one/fail~E')")
-
 AGREE_FIELDS = ("query", "status", "is_error", "type_identifier", "data_characteristics", "parent_query", "filename", "extension", "mimetype")
 
 SPECIAL = [
@@ -140,14 +135,11 @@ def agree(col, returned, copy_, what, w, fields=AGREE_FIELDS):
 def check_failed(col, md, what, w, message=None, known=None, ref=None, raised=False):
     if md is None:
         return
-    if (known is None and raised and ref is not None and ref.fail_path and ref.fail_path[0]["kind"] == "link"
-            and md.get("status") in ("evaluation", "dependencies", "parent") and not md.get("is_error")):
-        known = K_LINKFAIL_KEPT
     if md.get("status") != "error" or md.get("is_error") is not True:
         col.add(CONTRACT, what, known=known, field="status/is_error of a failed evaluation", expected="error/True", observed="%s/%s" % (md.get("status"), md.get("is_error")), **w)
     msgs = error_messages(md)
     if not msgs:
-        col.add(CONTRACT, what, known=known if known == K_LINKFAIL_KEPT else None, field="log/child_log of a failed evaluation",
+        col.add(CONTRACT, what, field="log/child_log of a failed evaluation",
                 expected="an error entry with the message", observed=None, **w)
     elif message is not None and not any(message == m or message in m or m in message for m in msgs):
         col.add(CONTRACT, what, field="log/child_log of a failed evaluation", expected=message, observed=msgs, **w)
